@@ -43,6 +43,9 @@ THEOREMS = [
     'C06_grid_algorithm_abs_blind_lines : (forall ab <= g_visible_absolute, Forall2 (a = b \\/ (ab a /\\ ab b /\\ same grid_row /\\ same grid_column)) st st\' -> '
     'ABis (abmask ab st) (grid_alg s st i) (grid_alg s st\' i)) /\\ (forall r c, AbsBlind grid_alg (ab_lines r c) gout_eq glay_eq)',
     'C06_grid_engine_instance : the conclusion of C06_abs_blind_engine for engines of grid containers and leaves, ab = box-generating absolute on lines (r, c)',
+    'C06_abs_blind_engine_keyed : AbsBlindK algo ab key oeq leq -> asimK t t\' -> memo f t i = Some (o, t1) -> memo f\' t\' i = Some (o\', t1\') -> asimK t1 t1\' /\\ (ab (style t) = false -> oeq o o\');  AbsBlind -> AbsBlindK',
+    'C06_grid_algorithm_abs_blind_keyed : AbsBlindK grid_alg g_visible_absolute (fun s => (gs_row s, gs_column s)) gout_eq glay_eq',
+    'C06_taffy_engine_instance : AbsChildLocal abs_child -> the keyed conclusion for engines of block, flex, grid containers and leaves (taffy_algo), ab = box-generating absolute, key = grid lines',
 ]
 
 
